@@ -150,7 +150,17 @@ func (t *ImmutableTree) Has(key []byte) (bool, error) {
 
 // Hash returns the root hash.
 func (t *ImmutableTree) Hash() []byte {
-	return t.root.hashWithCount(t.version + 1)
+	return t.root.hashWithCount(t.nextVersion())
+}
+
+// nextVersion returns the version the not yet saved nodes of the tree (if any)
+// are going to be saved with: the configured initial version for a tree that
+// has no version yet, the successor of the tree's version otherwise.
+func (t *ImmutableTree) nextVersion() int64 {
+	if t.version == 0 && t.ndb != nil && t.ndb.opts.InitialVersion > 0 {
+		return int64(t.ndb.opts.InitialVersion) // nolint:gosec // the integer version is always positive
+	}
+	return t.version + 1
 }
 
 // Export returns an iterator that exports tree nodes as ExportNodes. These nodes can be
